@@ -26,7 +26,11 @@ RULE = ("A case = a working tree with 2-5 versioned files (0-2 directories, "
         ">= 2 conflict types with a non-ASCII or quote/blank/control path; a "
         "selection that is a proper non-empty subset (labelled by what "
         "selected: path, recursion, file id); a merge-modified dict that is "
-        "filtered. Distinct by case hash.")
+        "filtered. Every case with a non-empty list also overwrites the "
+        "stored list with a copy that differs in exactly one attribute of one "
+        "conflict (conflict_path, file_id, action, path, conflict_file_id) "
+        "and back, re-opening and comparing attribute by attribute each "
+        "time. Distinct by case hash.")
 ASSUMPTIONS = [
     "paths are tree-relative without '.'/'..' components (resolve() deletes "
     "<path>.THIS/.BASE/.OTHER below the tree root)",
@@ -197,7 +201,12 @@ def gen_case(draw, below_file=False, helper_dir=False):
         edits = []
     return {"tree": tree, "conflicts": conflicts, "selection": selection,
             "merge_modified": mm, "edits": edits,
-            "resolve_all": draw(st.integers(0, 5)) == 0}
+            "resolve_all": draw(st.integers(0, 5)) == 0,
+            "variant": [draw(st.integers(0, 11)),
+                        draw(st.sampled_from(["conflict_path", "conflict_path",
+                                              "file_id", "action", "path",
+                                              "conflict_file_id"])),
+                        draw(st.integers(0, 5))]}
 
 
 # ---------------------------------------------------------------- helpers
@@ -289,6 +298,34 @@ def model_select(conflicts, paths, ids_of_paths, recurse):
     return rem, sel, why
 
 
+def _variant(case):
+    """The stored list with one attribute of one conflict changed."""
+    v = case.get("variant")
+    cs = case["conflicts"]
+    if not v or not cs:
+        return None
+    k, attr, salt = v
+    c = dict(cs[k % len(cs)])
+    attrs = [a for a in ("conflict_path", "file_id", "action", "path",
+                         "conflict_file_id") if c.get(a) is not None]
+    if attr not in attrs:
+        # the drawn attribute does not exist on this conflict type: take the
+        # one the classes' == is most likely to overlook
+        attr = attrs[salt % len(attrs)]
+    old = c[attr]
+    if attr == "action":
+        new = ACTIONS[(ACTIONS.index(old) + 1 + salt) % len(ACTIONS)]
+        if new == old:
+            new = ACTIONS[(ACTIONS.index(old) + 1) % len(ACTIONS)]
+    else:
+        new = old + ["2", "-é", " x"][salt % 3].replace(
+            " ", "_" if attr.endswith("id") else " ")
+    c[attr] = new
+    lst = list(cs)
+    lst[k % len(cs)] = c
+    return {"list": lst, "what": [k % len(cs), attr, old, new]}
+
+
 def _safe(root, rel):
     full = os.path.normpath(os.path.join(root, rel))
     return full == root or full.startswith(root + os.sep)
@@ -333,6 +370,27 @@ def run(case, env):
     for o, o2 in zip(objs, got):
         check(type(o) is type(o2), "C20/reopened-conflict-class-differs",
               detail)
+
+    # (2b) overwriting the stored list with one that differs in a single
+    # attribute of a single conflict (same length, same order; for path and
+    # contents conflicts the classes' own == does not see a conflict_path
+    # change), and back again
+    rewrite_label = None
+    var = _variant(case)
+    if var is not None:
+        d2 = dict(detail, variant=var["what"])
+        wt2.set_conflicts(bc.ConflictList([_make(c) for c in var["list"]]))
+        del wt2
+        wtv = workingtree.WorkingTree.open(root)
+        _compare(wtv.conflicts(), var["list"],
+                 "C20/rewritten-conflicts-stale-" + var["what"][1], d2)
+        wtv.set_conflicts(bc.ConflictList([_make(c)
+                                           for c in case["conflicts"]]))
+        del wtv
+        wtw = workingtree.WorkingTree.open(root)
+        _compare(wtw.conflicts(), case["conflicts"],
+                 "C20/rewritten-back-conflicts-stale-" + var["what"][1], d2)
+        rewrite_label = "rewrite-differs-only-in-" + var["what"][1]
 
     # (3) merge-modified hashes
     mm_label = _merge_modified(case, root, id_of, detail)
@@ -413,6 +471,8 @@ def run(case, env):
         return ok("several-types-with-odd-path")
     if mm_label:
         return ok(mm_label)
+    if rewrite_label:
+        return ok(rewrite_label)
     return trivial()
 
 
